@@ -110,11 +110,12 @@ type ValFix struct {
 }
 
 type Fixture struct {
-	Vals     []*ValFix // c1, s1, h1 (genesis), n1 (candidate, not in genesis)
+	Vals     []*ValFix // c1, s1, h1, h2 (genesis), n1 (candidate, not in genesis)
 	D1, D2   *Account  // delegators
 	P        *Account  // plain account
 	KStore   common.Address
 	KRevert  common.Address
+	KClear   common.Address // clears a slot that is non-zero in genesis: the first call earns an SSTORE refund
 	Accounts []*Account
 	Universe []common.Address // every address that may ever hold a balance (for reporting only)
 }
@@ -159,11 +160,14 @@ func Fix() *Fixture {
 			mk("c1", params.RoleChancellor, 1, Unit(20, 7), params.ValidatorOnline, true),
 			mk("s1", params.RoleSenator, 2, Unit(12, 500000000000000003), params.ValidatorOnline, true),
 			mk("h1", params.RoleHouse, 3, Unit(5, 11), params.ValidatorOnline, true),
+			mk("h2", params.RoleHouse, 5, Unit(3, 2), params.ValidatorOnline, true), // three house validators: the equal split of the role pool leaves a residue
+			mk("h3", params.RoleHouse, 6, Unit(4, 3), params.ValidatorOnline, true),
 			mk("n1", params.RoleSenator, 4, Unit(6, 1), params.ValidatorOffline, false),
 		}
 		f.D1, f.D2, f.P = mkAcc("D1", 0x21), mkAcc("D2", 0x22), mkAcc("P", 0x23)
 		f.KStore = common.HexToAddress("0xc0de000000000000000000000000000000000001")
 		f.KRevert = common.HexToAddress("0xc0de000000000000000000000000000000000002")
+		f.KClear = common.HexToAddress("0xc0de000000000000000000000000000000000003")
 		f.Accounts = []*Account{f.D1, f.D2, f.P}
 		for _, v := range f.Vals {
 			f.Accounts = append(f.Accounts, v.Operator)
@@ -218,6 +222,9 @@ func (f *Fixture) Genesis() *core.Genesis {
 	// KStore: SSTORE(0, CALLVALUE+1) ; STOP      KRevert: REVERT(0,0)
 	g.Alloc[f.KStore] = core.GenesisAccount{Balance: big.NewInt(5), Code: []byte{0x34, 0x60, 0x01, 0x01, 0x60, 0x00, 0x55, 0x00}}
 	g.Alloc[f.KRevert] = core.GenesisAccount{Balance: big.NewInt(0), Code: []byte{0x60, 0x00, 0x60, 0x00, 0xfd}}
+	// KClear: SSTORE(0, 0) ; STOP   with slot 0 == 1 in genesis
+	g.Alloc[f.KClear] = core.GenesisAccount{Balance: big.NewInt(0), Code: []byte{0x60, 0x00, 0x60, 0x00, 0x55, 0x00},
+		Storage: map[common.Hash]common.Hash{{}: common.BigToHash(big.NewInt(1))}}
 	for _, v := range f.Vals {
 		if !v.Genesis {
 			continue
